@@ -85,20 +85,23 @@ def r2(ctx):
         raise AnchorError("write_response_headers: expected one events/static/attrs write each")
     ctx.check(bd.block_dominates(ev[0].idx, stc[0].idx), "events-before-static", "events are written before static data", bd.where(stc[0].idx))
     ctx.require_guards(bd, stc[0].idx, [("all selected events were written", g_is(lambda x: mentions_call(x, r"EventBuffer::write_events$"), "Ok"))], "static-after-complete-events", "StaticDatabase::write")
-    ctx.require_guards(bd, att[0].idx, [("static data complete", g_bool(lambda x: x[0] == "var" and x[1] == "complete", True))], "attrs-after-static", "AttrHandler::write")
+    ctx.require_guards(bd, att[0].idx, [("static data complete", g_is(lambda x: mentions_call(x, r"StaticDatabase::write$"), "Ok"))], "attrs-after-static", "AttrHandler::write")
     sym = ctx.sym(bd)
-    # `complete` is false on the events-overflow path, is_ok(static write) otherwise
-    cl = bd.local_by_name("complete")
-    exprs = [(blk, sym.def_expr(blk, si)) for l in cl for blk, si in bd.defs.get(l, [])]
-    ctx.check(any(mentions_call(e, r"StaticDatabase::write$") and mentions_call(e, r"Result::is_ok$") for _, e in exprs), "complete<-static-ok", "complete <- static_db.write().is_ok()", bd.where(line=bd.line))
-    ctx.check(any(mentions_call(e, r"AttrHandler::write$") for _, e in exprs), "complete<-attrs", "complete <- attrs.write()", bd.where(line=bd.line))
-    for b, si, st in agg_sites(bd, r"database::ResponseInfo$"):
+    # what is reported as `complete` (FIN): never a literal true; false, or what the static / attribute writers reported (stated over
+    # the values, so flag variables, early returns and `a.is_ok() && b` are the same thing)
+    sites = agg_sites(bd, r"database::ResponseInfo$")
+    allc = []
+    for b, si, st in sites:
         e = sym.rvalue_expr(st.rv)
-        cexprs = resolve_defs(bd, sym, agg_field(e, "complete"))
-        ctx.check(any(mentions_call(x, r"StaticDatabase::write$|AttrHandler::write$") for x in cexprs), "ResponseInfo:fields", "ResponseInfo{has_events: %s, complete: %s}" % (expr_str(agg_field(e, "has_events")), expr_str(agg_field(e, "complete"))), bd.where(b.idx))
+        cexprs = resolve_defs(bd, sym, agg_field(e, "complete"), depth=3)
+        allc.extend(cexprs)
+        okv = lambda x: (x[0] == "const" and x[1] == 0) or mentions_call(x, r"StaticDatabase::write$|AttrHandler::write$")
+        ctx.check(bool(cexprs) and all(okv(x) for x in cexprs), "ResponseInfo:fields", "ResponseInfo{has_events: %s, complete: %s}" % (expr_str(agg_field(e, "has_events")), [expr_str(x)[:40] for x in cexprs]), bd.where(b.idx))
         # has_events is `count > 0` of what write_events reported, whether the whole selection fitted (Ok) or not (Err)
-        hexprs = resolve_defs(bd, sym, agg_field(e, "has_events"))
+        hexprs = resolve_defs(bd, sym, agg_field(e, "has_events"), depth=3)
         ctx.check(bool(hexprs) and all(mentions(x, lambda s: s[0] == "bin" and s[1] == "Gt") and mentions_call(x, r"write_events$") for x in hexprs), "has_events<-count>0", "has_events <- count > 0 on every arm (%s)" % [expr_str(x)[:50] for x in hexprs], bd.where(line=bd.line))
+    ctx.check(any(mentions_call(x, r"AttrHandler::write$") for x in allc), "complete<-attrs", "complete <- attrs.write()", bd.where(line=bd.line))
+    ctx.check(any(mentions_call(x, r"StaticDatabase::write$|AttrHandler::write$") for x in allc), "complete<-static-ok", "complete <- static_db.write().is_ok() (and the attribute writer, whose result is reported, runs only after it)", bd.where(line=bd.line))
     # StaticDatabase::write: pop only after a completely written range; Err updates the front and stops
     wb = prog.body("range::static_db::StaticDatabase::write")
     wr = lambda x: mentions_call(x, r"StaticDatabase::write_range$")
